@@ -69,6 +69,19 @@ def standin_algebra(tier, seed):
     likes = [cirq.XPowGate(exponent=e, global_shift=sh)(qs[0]) for e in (1, -1, 3, 2, 0) for sh in (0, 0.5, -0.5, 0.25)]
     likes += [cirq.YPowGate(exponent=e, global_shift=sh)(qs[1]) for e in (1, 3, 2) for sh in (0, 0.5)] + [cirq.ZPowGate(exponent=e, global_shift=sh)(qs[0]) for e in (1, -1, 2) for sh in (0, -0.5, 1)]
     likes += [cirq.rx(np.pi)(qs[0]), cirq.ry(-np.pi)(qs[1]), cirq.rz(np.pi)(qs[0]), cirq.XXPowGate(exponent=1, global_shift=0.5)(*qs), cirq.ZZ(*qs), cirq.YYPowGate(exponent=3, global_shift=-0.5)(*qs)]
+    # ... the same operations carrying tags (the product goes through the tag wrapper's own __mul__ / __rmul__), and the plain Paulis tagged
+    likes += [o.with_tags("gauge") for o in likes[::4]] + [cirq.X(qs[0]).with_tags("t"), cirq.Y(qs[0]).with_tags("t"), cirq.Z(qs[1]).with_tags("t", "u")]
+    tagged_paulis = likes[-3:]
+    for o1, o2 in itertools.product(tagged_paulis + [cirq.X(qs[0]), cirq.Y(qs[0]), cirq.Z(qs[0]) ** 3], tagged_paulis):
+        cases += 1
+        m1, m2 = (cirq.Circuit(o).unitary(qubit_order=qs, qubits_that_should_be_present=qs) for o in (o1, o2))
+        for label, f, want in (("a * tagged", lambda: o1 * o2, m1 @ m2), ("tagged * a", lambda: o2 * o1, m2 @ m1)):
+            try:
+                got = f()
+            except TypeError:
+                continue
+            if not np.allclose(_mat(got, qs), want, atol=1e-9):
+                bad(f"{label}: product of Pauli operations (one carrying tags) differs from the matrix product", a=o1, b=o2)
     for op in likes:
         mo = cirq.Circuit(op).unitary(qubit_order=qs, qubits_that_should_be_present=qs)
         for a in S[::5]:
